@@ -463,3 +463,79 @@ Example C09_nonvacuous_value_pipeline :
     = Some [1; 3; 4] /\
   value_agrees_drained (fun _ _ => false) (Some 1) [VEPub 2; VEPub 3; VERecv 1; VEPub 4; VERecv 3; VERecv 4] = true.
 Proof. vm_compute. auto. Qed.
+
+(* ------------------------------------------------------------------------------------------ *)
+(* Value.set's send timeout around the backpressure pipeline (Excess/SendTimeout.v)            *)
+(* ------------------------------------------------------------------------------------------ *)
+From SC Require Import Excess.SendTimeout.
+
+(* "with backpressure ... a Value write whose event cannot be delivered within its five-second send
+   timeout returns an error instead of hanging".  The writer side of Value.set as a machine over
+   TSet m / THand / TTick / TTimeout / TRecv / TCancel around Pipeline.w_step; T = the timeout in
+   ticks (any T).  For EVERY run without a cancel -- any reader pace, any number of ticks, any
+   equivalence --: the writes return in the order they were made, one result each; what the
+   subscriber received ++ the seed if still pending ++ what the Pull loop holds = the seed followed
+   by what the Pull loop keeps of the writes that returned NIL.  So a write that returned an error
+   was never handed over, a write that returned nil was (a Set that reports success for an event
+   nobody was sent, or an error for one that was, is not this model); and nobody waits > T ticks. *)
+Theorem C09_timeout_results_exact : forall eqv T seed l s os,
+  no_tcancel l = true -> t_run eqv T (t_init seed) l = Some (s, os) ->
+  map res_val (results os) ++ match t_wait s with Some (m, _) => [m] | None => [] end = sets_of l /\
+  delivered os ++ olist (w_seed (t_pipe s)) ++ olist (w_pl (t_pipe s)) = olist seed ++ keep eqv seed (oks (results os)) /\
+  match t_wait s with Some (_, k) => (k <= T)%nat | None => True end.
+Proof. exact timeout_results_exact. Qed.
+Print Assumptions C09_timeout_results_exact.
+
+(* no hanging, and the reader plays no part: a waiting write returns an error after exactly the
+   remaining ticks by the clock and the deadline alone; the pipeline is untouched and the turnstile
+   is left, so the next Set can enter *)
+Theorem C09_timeout_write_never_hangs : forall eqv T s m k, t_wait s = Some (m, k) -> (k <= T)%nat ->
+  t_run eqv T s (repeat TTick (T - k) ++ [TTimeout]) =
+    Some (mkT (t_pipe s) None (t_gone s), repeat TNone (T - k) ++ [TRet (RErr m)]) /\
+  forall m', t_step eqv T (mkT (t_pipe s) None (t_gone s)) (TSet m') <> None.
+Proof. exact write_never_hangs. Qed.
+Print Assumptions C09_timeout_write_never_hangs.
+
+Theorem C09_timeout_wait_bounded : forall eqv T l s s' os m k, t_wait s = Some (m, k) ->
+  forallb (fun a => match a with TTick => true | _ => false end) l = true ->
+  t_run eqv T s l = Some (s', os) -> (k + List.length l <= T)%nat \/ (T < k)%nat.
+Proof. exact wait_bounded. Qed.
+Print Assumptions C09_timeout_wait_bounded.
+
+(* an error only once the deadline has passed; every return, nil or error, leaves the turnstile *)
+Theorem C09_timeout_error_only_after_deadline : forall eqv T s s' m,
+  t_step eqv T s TTimeout = Some (s', TRet (RErr m)) ->
+  exists k, t_wait s = Some (m, k) /\ (T <= k)%nat /\ t_pipe s' = t_pipe s /\ t_wait s' = None.
+Proof. exact error_only_after_deadline. Qed.
+Print Assumptions C09_timeout_error_only_after_deadline.
+
+Theorem C09_timeout_every_return_leaves_the_turnstile : forall eqv T s a s' r,
+  t_step eqv T s a = Some (s', TRet r) -> t_wait s' = None /\ forall m, t_step eqv T s' (TSet m) <> None.
+Proof. exact every_return_leaves_the_turnstile. Qed.
+Print Assumptions C09_timeout_every_return_leaves_the_turnstile.
+
+(* a reader that keeps up never causes a timeout: the hand-over is enabled exactly when the seed has
+   been taken and the Pull loop holds nothing *)
+Theorem C09_timeout_hand_over_enabled_iff : forall eqv T s m k, t_wait s = Some (m, k) -> t_gone s = false ->
+  (t_step eqv T s THand <> None <->
+   (w_cancel (t_pipe s) = false /\ w_seed (t_pipe s) = None /\ w_pl (t_pipe s) = None)).
+Proof. exact hand_over_enabled_iff. Qed.
+Print Assumptions C09_timeout_hand_over_enabled_iff.
+
+(* the oracle of the measured scenarios: an observation that agrees with the model's run passes it as
+   soon as the measured duration is inside the window (the one thing the model does not say) *)
+Theorem C09_judge_sound_timeout : forall resume errored ms later written got,
+  agrees (KApiTimeout resume errored ms later written got) = true ->
+  4000 <= ms <= 9000 ->
+  C09_ok (KApiTimeout resume errored ms later written got) = true.
+Proof. exact judge_sound_timeout. Qed.
+Print Assumptions C09_judge_sound_timeout.
+
+(* non-vacuity = the two scenarios the harness measures in both tiers (KApiTimeout; agrees compares
+   the observation with exactly these runs) *)
+Example C09_timeout_nonvacuous :
+  timeout_expected true = Some ([ROk 1; RErr 2; ROk 3; ROk 4], [1; 3]) /\
+  timeout_expected false = Some ([RErr 1; ROk 2], []) /\
+  (* ... and the hand-over of write 2 is indeed not enabled while the Pull loop holds write 1 *)
+  option_map snd (t_run noeq 5 (t_init None) [TSet 1; THand; TSet 2; THand]) = None.
+Proof. vm_compute. auto. Qed.
